@@ -330,6 +330,24 @@ def rule_a85(ctx, f):
     ctx.check(ok, "C16-SIB-a85", "enc::encode_85#eod", "output does not end with `~>` on every path", eb["span"], detail="~> appended on every path")
 
 
+
+def rule_inflate_whole(ctx, f):
+    ctx.rule("C16-TS-dec", "the Flate decoder reads the encoder's output to its end: no limit is put on the decompressed length (long runs compress 1000 : 1; a cap in "
+             "proportion to the compressed size cuts them short without an error)")
+    n = 0
+    for b in f.bodies.values():
+        if b.get("_file") != "pdf/src/enc.rs" or b["kind"] == "Closure":
+            continue
+        rd = [t for bi, t in F.calls(b) if last_seg(F.callee_name(t)) in ("read_to_end", "read_exact", "read") and "Read" in (F.callee_name(t) + str(t.get("trait")))]
+        if not rd or not any("libflate" in F.callee_name(t) + t.get("callee_full", "") + " ".join(a["s"] for a in t.get("arg_tys", [])) for bi, t in F.calls(b)):
+            continue
+        n += 1
+        lim = sorted({last_seg(F.callee_name(t)) for bi, t in F.calls(b)} & {"take", "read_exact", "with_capacity_limit", "take_while"})
+        ctx.check(not lim, "C16-TS-dec", b["id"] + "#reads-all", "the inflater's output is limited (%s): data that compresses better than the limit allows comes back truncated" % ", ".join(lim),
+                  b["span"], detail="decoder.read_to_end(..)")
+    ctx.floor("C16-TS-dec", n, 2, "inflate helpers (zlib framing, raw deflate)")
+
+
 def run(ctx):
     f = F.load("default")
     ctx.count("bodies", len(f.bodies))
@@ -338,6 +356,7 @@ def run(ctx):
     rule_lzw(ctx, f)
     rule_hex(ctx, f)
     rule_a85(ctx, f)
+    rule_inflate_whole(ctx, f)
     return ctx.finish(
         "Static analysis of MIR facts of enc.rs: must-pass-through of finish() and identity of the zlib encoder type; dispatch "
         "tables of encode/decode compared as siblings by role; constructor arguments of the weezl encoder/decoder and the "
